@@ -39,6 +39,10 @@ TABLE = {
             'configurations, the general normalisation formula, J1 Sigma J2^T, |corr|<=1 (compositional, thorough), sort_corr = key permutation and error_band^2 = g^T C g are proven '
             'for all sample values / gradients / matrix entries over the enumerated layouts.',
             'Real-number semantics; PSD for n>2, eigenvalue smoothing and the Cholesky-based inverse are outside (LAPACK); data assumed non-degenerate (non-zero variance on common configurations).'),
+    'C14': (True, 'symbolic execution of Corr operators / functions / index transformations on correlators with distinct symbolic samples per entry, symbolic integer arguments; SMT equality per entry + structural non-mutation checks',
+            'Timeslice-wise action, preserved T/N, exact propagation of undefined slices, the stated index maps (roll for all dt, thin for all spacing/offset, symmetric, anti_symmetric, '
+            'T_symmetry, item, projected, trace, matrix_symmetric, Hankel) and non-mutation of operands and arguments are decided for all sample values over the enumerated None patterns.',
+            'Real-number semantics (NaN->undefined outside); T<=5, N<=2; warnings of the symmetry helpers stubbed; known finding: CObs / Corr raises TypeError.'),
 }
 
 NOT_YET = 'check not built yet in this session (work in progress; see DESIGN.md section 4 for the plan)'
